@@ -299,7 +299,11 @@ def main(argv):
         seen.add(k["obligation"])
         print("KNOWN-FINDING: property=%s %s -- %s" % (prop, k["obligation"], k["text"]))
     vio_lines = []
+    reported = set()
     for eng, f in violations:
+        if f["obligation"] in reported:
+            continue
+        reported.add(f["obligation"])
         h = hashlib.sha1(f["obligation"].encode()).hexdigest()[:10]
         rp = os.path.join(REPLAYS, "%s-%s.json" % (prop, h))
         has_input = bool(f.get("concrete"))
